@@ -252,7 +252,7 @@ prop('C16',
 
 prop('C12',
      modules=['LarkVerif.Cache', 'LarkVerif.Props.C12', 'LarkVerif.Extracted'],
-     theorems=['Props.C12.cache_is_only_an_optimisation', 'Props.C12.invariant_preserved', 'Props.C12.invariant_initially', 'Props.C12.open_leaves_valid_file', 'Props.C12.key_shape_injective',
+     theorems=['Props.C12.cache_is_only_an_optimisation', 'Props.C12.invariant_preserved', 'Props.C12.invariant_initially', 'Props.C12.open_leaves_valid_file', 'Props.C12.key_shape_injective', 'Props.C12.key_covers_grammar_options_versions',
                'Props.C12.unhashable_options_are_declared'],
      fingerprints=['lark/lark.py:Lark.__init__', 'lark/lark.py:Lark._load', 'lark/lark.py:Lark.save'],
      rule='random histories (4-12 operations) against ONE cache path in a fresh temp directory, over a pool of 4 requests drawn from 8 grammars (two importing a module whose file content varies, the F4 pair) x 7 option sets: '
